@@ -4,6 +4,7 @@ import (
 	"bytes"
 	"fmt"
 	"os"
+	"os/exec"
 	"path/filepath"
 	"strings"
 
@@ -71,28 +72,40 @@ func runC01Git(c *Ctx) {
 	if t.Choose(3, "GIT_LFS_PROGRESS") == 1 {
 		w.ExtraEnv = append(w.ExtraEnv, "GIT_LFS_PROGRESS="+filepath.Join(w.Root, "progress.log"))
 	}
-	ext := t.Choose(4, "pointer-extension") == 0
+	// pointer extensions: none, size-preserving, shrinking, growing
+	extKind := []string{"", "", "", "rot", "gz", "b64"}[t.Choose(6, "pointer-extension")]
+	ext := extKind != ""
+	extClean := map[string]string{"rot": "tr A-Za-z N-ZA-Mn-za-m", "gz": "gzip -nc", "b64": "base64"}[extKind]
+	extSmudge := map[string]string{"rot": "tr A-Za-z N-ZA-Mn-za-m", "gz": "gzip -dc", "b64": "base64 -d"}[extKind]
 	if ext {
-		w.MustGit(u, "config", "lfs.extension.rot.clean", "tr A-Za-z N-ZA-Mn-za-m")
-		w.MustGit(u, "config", "lfs.extension.rot.smudge", "tr A-Za-z N-ZA-Mn-za-m")
-		w.MustGit(u, "config", "lfs.extension.rot.priority", "0")
+		w.MustGit(u, "config", "lfs.extension."+extKind+".clean", extClean)
+		w.MustGit(u, "config", "lfs.extension."+extKind+".smudge", extSmudge)
+		w.MustGit(u, "config", "lfs.extension."+extKind+".priority", "0")
+		c.Probe("pointer-extension-" + extKind)
 	}
 	os.WriteFile(filepath.Join(u, ".gitattributes"), []byte("*.bin filter=lfs diff=lfs merge=lfs -text\n*.ltxt filter=lfs diff=lfs merge=lfs-text -text\n"), 0644)
-	w.MustGit(u, "config", "merge.lfs-text.driver", "git lfs merge-driver --ancestor %O --current %A --other %B --marker-size %L --output %A")
+	driver := "git lfs merge-driver --ancestor %O --current %A --other %B --marker-size %L --output %A"
+	switch t.Choose(4, "merge-program") {
+	case 1: // the documented spelling of the default
+		driver += " --program 'git merge-file --stdout --marker-size=%%L %%A %%O %%B >%%D'"
+	case 2: // a program that moves its result into place
+		driver += " --program 'git merge-file --stdout --marker-size=%%L %%A %%O %%B >%%D.new; s=$?; mv %%D.new %%D; exit $s'"
+	case 3: // a program that edits in place through a temporary copy
+		driver += " --program 'cp %%A %%D.cur && git merge-file --marker-size=%%L %%D.cur %%O %%B; s=$?; cat %%D.cur >%%D; rm -f %%D.cur; exit $s'"
+	}
+	w.MustGit(u, "config", "merge.lfs-text.driver", driver)
 	w.MustGit(u, "add", ".gitattributes")
 	w.MustGit(u, "commit", "-q", "-m", "attrs")
 
+	// what the extension's clean command makes of the content (the same
+	// program git-lfs runs, run here by the harness)
 	rot := func(b []byte) []byte {
-		o := make([]byte, len(b))
-		for i, ch := range b {
-			switch {
-			case ch >= 'a' && ch <= 'z':
-				o[i] = 'a' + (ch-'a'+13)%26
-			case ch >= 'A' && ch <= 'Z':
-				o[i] = 'A' + (ch-'A'+13)%26
-			default:
-				o[i] = ch
-			}
+		cmd := exec.Command("sh", "-c", extClean)
+		cmd.Stdin = bytes.NewReader(b)
+		cmd.Env = append(os.Environ(), "LC_ALL=C")
+		o, err := cmd.Output()
+		if err != nil {
+			panic(sim.HarnessError{Msg: "extension program failed in the harness: " + err.Error()})
 		}
 		return o
 	}
@@ -100,15 +113,16 @@ func runC01Git(c *Ctx) {
 	// smudging it must give the original bytes back.
 	checkBlob := func(what, blob string, orig []byte) {
 		ptrText, _ := w.GitQ(u, "cat-file", "blob", blob)
-		if len(orig) == 0 {
+		stored := orig
+		if ext {
+			stored = rot(orig)
+		}
+		// (an extension such as gzip turns empty input into something)
+		if len(stored) == 0 || (len(orig) == 0 && ptrText == "") {
 			if ptrText != "" {
 				c.Violation("empty-not-empty", "%s: empty content was stored as %q", what, clipStr(ptrText, 80))
 			}
 			return
-		}
-		stored := orig
-		if ext {
-			stored = rot(orig)
 		}
 		oid, size, ok := ParsePointer([]byte(ptrText))
 		if !ok {
